@@ -19,7 +19,7 @@ RULE = ('strings: all strings up to a length bound over the number/boolean alpha
         'Python rendering of the YAML 1.2 rules, constructed with the real constructor, and, when '
         'it scans as one plain scalar, loaded end to end.  Non-trivial = the string resolves to a '
         'non-str tag on either side or is within one edit of such a string.'
-        'Also: Node.get_value() agrees with the constructed value for every string that resolves'
+        ' Also: Node.get_value() agrees with the constructed value for every string that resolves'
         ' to bool / float; boolean- and float-looking scalars at positions where one Union member'
         ' has an enum and another a bool / Any, judged by the reference pipeline.')
 ASSUMPTIONS = [
